@@ -138,6 +138,21 @@ impl<'a, 'b, T: TestDriver> DataRowIterator<'a, 'b, T> {
     }
 }
 
+#[cfg(feature = "verif-hooks")]
+impl<'a, 'b, T> DataRowIterator<'a, 'b, T> {
+    /// Canonical rendering of the complete state of the iterator, for explicit-state exploration
+    pub fn verif_state_key(&self) -> String {
+        format!(
+            "iter={:?} cache={:?} prev={:?} output_indices={:?} ctx[{}]",
+            self.test_data.iter,
+            self.test_data.cache,
+            self.test_data.prev,
+            self.test_data.output_indices,
+            self.ctx.verif_key()
+        )
+    }
+}
+
 impl<'a> DataRowIteratorTestData<'a> {
     fn generate_default_input_entries(&self) -> Vec<InputEntry<'a>> {
         self.input_indices
@@ -343,6 +358,8 @@ impl<'a> DataRowIteratorTestData<'a> {
 
     fn expand_x(&mut self) {
         loop {
+            #[cfg(feature = "verif-hooks")]
+            crate::verif_hooks::tick();
             let row_result = self
                 .cache
                 .last()
